@@ -17,20 +17,20 @@ def selftest(tier):
 
 
 def obligations(tier, seed):
-    t = 450 if tier == 'quick' else 2400
+    t = 450 if tier == 'quick' else 1200
     n = len(skeletons.HOIST_TEMPLATES)
     combos = [(True, False), (True, True), (False, False), (False, True)]
     shards = []
     for k in range(n):
         name_k = skeletons.HOIST_TEMPLATES[k][0]
         quick_lengths = (3,) if name_k.startswith('folded_') else ((1, 3) if name_k in ('import_and_literal', 'decorator_only') else ((1, 3)[(k + seed) % 2],))
-        for L in (quick_lengths if tier == 'quick' else (1, 2, 3)):
-            cs = [combos[(k // 2 + seed + L) % 4]] if tier == 'quick' else combos
+        for L in (quick_lengths if tier == 'quick' else (1, 3)):
+            cs = [combos[(k // 2 + seed + L) % 4]] if tier == 'quick' else combos[:2]
             for (rl, rg) in cs:
                 pre = ['k == %d' % k, 'len(A) == %d and len(B) == %d and len(C) == %d' % (L, L, L),
                        '"." not in A and "." not in B and "." not in C', 'rl == %s' % rl, 'rg == %s' % rg]
-                if tier == 'quick' and skeletons.HOIST_TEMPLATES[k][0] in ('one_true_float', 'none_true_bytes'):
-                    pre.append('A == %r and B == %r' % ('a' * L, 'b' * L))     # many hoisted values: pin two holes in the quick tier
+                if skeletons.HOIST_TEMPLATES[k][0] in ('one_true_float', 'none_true_bytes'):
+                    pre.append(('A == %r and B == %r' % ('a' * L, 'b' * L)) if tier == 'quick' else ('B == %r' % ('b' * L)))     # many hoisted values: pin two holes in the quick tier
                 if tier == 'quick' and name_k.startswith('folded_'):
                     pre.append('C == %r' % ('c' * L))     # the free name is irrelevant to folding + hoisting: pinned in the quick tier
                 shards.append(pre)
